@@ -144,6 +144,13 @@ func getTypeHint(v cue.Value) (string, error) {
 // ONLY call this function if it has been established that the provided Value is
 // Concrete.
 func cueConcreteToScalar(v cue.Value) (interface{}, error) {
+	return cueConcreteValue(v, false)
+}
+
+// cueConcreteValue converts a concrete CUE value. An empty list or struct held by
+// another value (`[["a"], []]`, `{name: "up", points: []}`) is part of that value:
+// it is kept as an empty collection.
+func cueConcreteValue(v cue.Value, nested bool) (interface{}, error) {
 	switch v.Kind() {
 	case cue.NullKind:
 		return nil, nil //nolint: nilnil
@@ -165,7 +172,7 @@ func cueConcreteToScalar(v cue.Value) (interface{}, error) {
 		for it.Next() {
 			current := it.Value()
 
-			val, err := cueConcreteToScalar(current)
+			val, err := cueConcreteValue(current, true)
 			if err != nil {
 				return nil, err
 			}
@@ -173,6 +180,9 @@ func cueConcreteToScalar(v cue.Value) (interface{}, error) {
 			values = append(values, val)
 		}
 
+		if len(values) == 0 && nested {
+			return []any{}, nil
+		}
 		if len(values) == 0 {
 			//nolint: nilnil
 			return nil, nil
@@ -184,13 +194,16 @@ func cueConcreteToScalar(v cue.Value) (interface{}, error) {
 		iter, _ := v.Fields(cue.Optional(true), cue.Definitions(true))
 		for iter.Next() {
 			fieldLabel := selectorLabel(iter.Selector())
-			value, err := cueConcreteToScalar(iter.Value())
+			value, err := cueConcreteValue(iter.Value(), true)
 			if err != nil {
 				return nil, err
 			}
 			newMap[fieldLabel] = value
 		}
 
+		if len(newMap) == 0 && nested {
+			return newMap, nil
+		}
 		if len(newMap) == 0 {
 			//nolint: nilnil
 			return nil, nil
@@ -200,7 +213,7 @@ func cueConcreteToScalar(v cue.Value) (interface{}, error) {
 	case cue.BottomKind:
 		// We could reach here when we have an enum default inside a default struct.
 		if defVal, ok := v.Default(); ok {
-			return cueConcreteToScalar(defVal)
+			return cueConcreteValue(defVal, nested)
 		}
 		//nolint: nilnil
 		return nil, nil
